@@ -22,6 +22,7 @@ and many options to consider when collecting.
 """
 
 import abc
+from collections.abc import Mapping
 from typing import List
 
 from deep import logging
@@ -322,13 +323,27 @@ def find_children_for_parent(var_collector: Collector, parent_node: ParentNode, 
         return process_list_breadth_first(var_collector, parent_node, value)
     elif isinstance(value, Exception):
         return process_list_breadth_first(var_collector, parent_node, value.args)
-    elif hasattr(value, '__class__'):
-        return process_dict_breadth_first(parent_node, variable_type.__name__, value.__dict__, correct_names)
-    elif hasattr(value, '__dict__'):
-        return process_dict_breadth_first(parent_node, variable_type.__name__, value.__dict__)
-    else:
-        logging.debug("Unknown type processed %s", variable_type)
-        return []
+    attributes = instance_attributes(value)
+    if attributes is not None:
+        return process_dict_breadth_first(parent_node, variable_type.__name__, attributes, correct_names)
+    logging.debug("Unknown type processed %s", variable_type)
+    return []
+
+
+def instance_attributes(value):
+    """
+    Get the attribute dictionary of a value.
+
+    :param value: the value to look at
+    :return: the attribute mapping, or None if the value has none (builtins, slots) or it cannot be read
+    """
+    try:
+        attributes = value.__dict__
+    except Exception:
+        return None
+    if isinstance(attributes, Mapping):
+        return attributes
+    return None
 
 
 def process_dict_breadth_first(parent_node, type_name, value, func=lambda x, y: y) -> List[Node]:
